@@ -114,6 +114,23 @@ def directed_registry_cases(rng, n):
             for x in [q] + q.children:
                 if ASTNode.get_any(x.id) is not x:
                     fail = "detaching an already detached tree evicted a live twin tree"
+        # (e) an inner node already left the registry (detach_self, or replaced by a new node) before an ancestor is
+        #     detach()ed: "detached nodes are not returned" holds for EVERY node of the detached tree
+        if fail is None:
+            l1, l2 = zoo.Leaf(v=70 + v), zoo.Leaf(v=80 + v)
+            inner = zoo.Bin(l1, l2)
+            mid = zoo.Un(inner) if rng.random() < 0.5 else zoo.Tup((zoo.Leaf(v=90 + v), inner))
+            top = zoo.Un(mid)
+            how = rng.choice(["detach_self", "replace"])
+            if how == "detach_self":
+                inner.detach_self()
+            else:
+                newer = inner.replace(left=zoo.Leaf(v=75 + v))     # `inner` itself still sits in the old tree
+            (top if rng.random() < 0.5 else mid).detach()
+            for x in (l1, l2, inner, mid):
+                if ASTNode.get_any(x.id) is x:
+                    fail = (f"a {type(x).__name__} of a detach()ed tree is still returned by lookup (an inner node had left the "
+                            f"registry before by {how})")
         # (d) a live child in a field typed as a union of unrelated classes (non-first member) below an unregistered
         #     parent: deserializing the parent's payload re-uses the child and never evicts it
         if fail is None:
